@@ -8,34 +8,39 @@ from gluerun import SIGMAP
 def corpus_steps(chk, accept, only="", miri=True, part_prefix="corpus"):
     q = chk.tier == "quick"
     cdir = gluerun.generate("corpus", chk.tier, 1)          # the corpus itself is fixed per tier; histories vary with VERIF_SEED
-    b = gluerun.build(cdir)
+    bins, failed = gluerun.build(cdir)
+    for n, err in failed:
+        chk.incon("corpus %s does not build on this tree: %s" % (n, err[-800:]))
     jobs = []
-    nshards = 4 if q else 16
-    for sh in range(nshards):
-        seed = chk.seed * 7919 + sh
-        jobs.append(lambda seed=seed: gluerun.run_bin(chk, [b, str(seed), str(60 if q else 600), str(40 if q else 80), only], part_prefix + "-native", accept))
+    reps = 1 if q else 4
+    for b in bins:
+        for rp in range(reps):
+            seed = chk.seed * 7919 + rp
+            jobs.append(lambda b=b, seed=seed: gluerun.run_bin(chk, [b, str(seed), str(200 if q else 1500), str(40 if q else 80), only], part_prefix + "-native", accept))
     if miri:
-        info = gluerun.miri_stub(cdir)
-        for sh in range(8 if q else 32):
-            seed = chk.seed * 104729 + sh
-            jobs.append(lambda seed=seed: gluerun.run_bin(chk, [str(seed), "1", "6", only], part_prefix + "-miri", accept, miri_info=info, timeout=3000))
+        infos = gluerun.miri_stubs(cdir)
+        for k, info in enumerate(infos):
+            for rp in range(1 if q else 4):
+                seed = chk.seed * 104729 + rp
+                jobs.append(lambda seed=seed, info=info: gluerun.run_bin(chk, [str(seed), "1", "6", only], part_prefix + "-miri", accept, miri_info=info, timeout=3000))
     if not q:
-        ba = gluerun.build(cdir, "asan")
-        for sh in range(4):
-            seed = chk.seed * 31 + sh
-            jobs.append(lambda seed=seed: gluerun.run_bin(chk, [ba, str(seed), "100", "60", only], part_prefix + "-asan", accept,
-                                                          env={"ASAN_OPTIONS": "detect_leaks=1:halt_on_error=1:exitcode=77"}))
+        ba, failed_a = gluerun.build(cdir, "asan")
+        for b in ba:
+            jobs.append(lambda b=b: gluerun.run_bin(chk, [b, str(chk.seed * 31), "200", "60", only], part_prefix + "-asan", accept,
+                                                    env={"ASAN_OPTIONS": "detect_leaks=1:halt_on_error=1:exitcode=77"}))
     rtrun.run_many(chk, jobs)
     m = gluerun.meta(cdir, "corpus.json")
     chk.parts.setdefault(part_prefix + "-native", {})["traits_in_corpus"] = len(m["traits"])
     chk.parts[part_prefix + "-native"]["methods_in_corpus"] = sum(len(t["methods"]) for t in m["traits"])
+    chk.parts[part_prefix + "-native"]["shards_built"] = len(bins)
     return m
 
 
 def hist_steps(chk, accept, miri=True):
     q = chk.tier == "quick"
     cdir = gluerun.generate("hist", chk.tier, chk.seed)
-    b = gluerun.build(cdir)
+    bins, failed = gluerun.build(cdir)
+    b = bins[0]
     jobs = [lambda: gluerun.run_bin(chk, [b], "lifecycle-native", accept)]
     if miri:
         mdir = gluerun.generate("hist", chk.tier, chk.seed, miri=True)
@@ -43,7 +48,7 @@ def hist_steps(chk, accept, miri=True):
         for sh in range(16):
             jobs.append(lambda sh=sh: gluerun.run_bin(chk, ["", str(sh)], "lifecycle-miri", accept, miri_info=info, miri_flags="-Zmiri-ignore-leaks", timeout=3000))
     if not q:
-        ba = gluerun.build(cdir, "asan")
+        ba = gluerun.build(cdir, "asan")[0][0]
         jobs.append(lambda: gluerun.run_bin(chk, [ba], "lifecycle-asan", accept, env={"ASAN_OPTIONS": "detect_leaks=0:halt_on_error=1:exitcode=77"}))
     rtrun.run_many(chk, jobs)
     m = gluerun.meta(cdir, "hist.json")
